@@ -496,11 +496,11 @@ def prog_eval(code, env, u, conv_const, c=64, on_value=None):
         elif tag == 3:
             b = code[pos[0]]; pos[0] += 1
             a = go(); d = go()
-            r = ej_binary(BINOPS[min(b, 3)], a, d, u, c)
+            r = ej_binary(BINOPS[b % 4], a, d, u, c)
         elif tag == 4:
             b = code[pos[0]]; cst = code[pos[0] + 1]; pos[0] += 2
             a = go()
-            r = ej_binary(BINOPS[min(b, 3)], a, ej_const(a.fam, conv_const(cst), a.val.zero * 0), u, c)
+            r = ej_binary(BINOPS[b % 4], a, ej_const(a.fam, conv_const(cst), a.val.zero * 0), u, c)
         elif tag == 5:
             n = code[pos[0]]; pos[0] += 1
             a = go()
@@ -540,11 +540,11 @@ def prog_str(code, nvars=0):
         if tag == 3:
             b = code[pos[0]]; pos[0] += 1
             a = go(nv); d = go(nv)
-            return '(%s %s %s)' % (a, '+-*/'[min(b, 3)], d)
+            return '(%s %s %s)' % (a, ('+-*/'[b % 4] + ('=' if b >= 4 else '')), d)
         if tag == 4:
             b = code[pos[0]]; cst = code[pos[0] + 1]; pos[0] += 2
             a = go(nv)
-            return '(%s %s %s_F)' % (a, '+-*/'[min(b, 3)], cst)
+            return '(%s %s %s_F)' % (a, ('+-*/'[b % 4] + ('=' if b >= 4 else '')), cst)
         if tag == 5:
             n = code[pos[0]]; pos[0] += 1
             return 'powi(%s, %d)' % (go(nv), n)
